@@ -40,8 +40,26 @@ impl Rng {
 }
 
 fn build_file(ver: u64) -> Cf {
+    build_file_on(ver, SharedBuf::new(Vec::new()))
+}
+
+/// Makes the next backend call of the given class ("r": reads and seeks, "w": writes, seeks and
+/// flushes) fail; `disarm` switches fault injection off again.
+fn arm(buf: &SharedBuf, class: &str) {
+    let mut c = buf.ctl.lock().unwrap();
+    c.fail_class = class.to_string();
+    c.class_calls = 0;
+    c.fail_at = vec![1];
+}
+fn disarm(buf: &SharedBuf) {
+    let mut c = buf.ctl.lock().unwrap();
+    c.fail_class = String::new();
+    c.fail_at.clear();
+}
+
+fn build_file_on(ver: u64, backing: SharedBuf) -> Cf {
     let v = if ver == 3 { cfb::Version::V3 } else { cfb::Version::V4 };
-    let mut cf = cfb::CompoundFile::create_with_version(v, SharedBuf::new(Vec::new())).unwrap();
+    let mut cf = cfb::CompoundFile::create_with_version(v, backing).unwrap();
     cf.create_storage("/a").unwrap();
     cf.create_storage("/a/b").unwrap();
     cf.create_storage("/q").unwrap();
@@ -99,7 +117,8 @@ fn emit_call<W: Write>(out: &mut W, hi: usize, oi: &mut usize, role: &str, name:
 
 fn extract<W: Write>(out: &mut W, hi: usize, hist: &Value) {
     let ver = hist["ver"].as_u64().unwrap_or(4);
-    let mut cf = build_file(ver);
+    let backing = SharedBuf::new(Vec::new());
+    let mut cf = build_file_on(ver, backing.clone());
     if let Some(mb) = hist["maxbuf"].as_u64() {
         // a small stream buffer makes refills and write-backs happen inside ordinary calls
         let inner = cf.into_inner();
@@ -229,6 +248,27 @@ fn extract<W: Write>(out: &mut W, hi: usize, hist: &Value) {
         hd!("h.read.dirty_refill", { let _ = s.read(&mut buf[..10]); });
         hd!("h.write.buffered", { let _ = s.write(&[3u8; 5]); });
         hd!("h.fill_buf.dirty", { let n = s.fill_buf().map(|b| b.len()).unwrap_or(0); s.consume(n.min(3)); });
+        // failure paths: the next backend call of the class fails while the call is in progress
+        hd!("h.flush.dirty", { let _ = s.flush(); });
+        hd!("h.write.buffered", { let _ = s.write(&[2u8; 30]); });
+        arm(&backing, "w");
+        hd!("h.flush.fails", { let _ = s.flush().is_err(); });
+        disarm(&backing);
+        hd!("h.flush.retry", { let _ = s.flush(); });
+        arm(&backing, "w");
+        hd!("h.set_len.fails", { let _ = s.set_len(50_000).is_err(); });
+        disarm(&backing);
+        hd!("h.set_len.retry", { let _ = s.set_len(20_000); });
+        hd!("h.seek.start", { let _ = s.seek(SeekFrom::Start(0)); });
+        arm(&backing, "r");
+        hd!("h.read.fails", { let _ = s.read(&mut buf[..100]).is_err(); });
+        disarm(&backing);
+        hd!("h.read.retry", { let _ = s.read(&mut buf[..100]); });
+        hd!("h.write.buffered", { let _ = s.write(&[1u8; 40]); });
+        arm(&backing, "w");
+        hd!("h.seek.dirty.fails", { let _ = s.seek(SeekFrom::Start(15_000)).is_err(); });
+        disarm(&backing);
+        hd!("h.seek.dirty.retry", { let _ = s.seek(SeekFrom::Start(15_000)); });
         hd!("h.write.buffered", { let _ = s.write(&[5u8; 20]); });
         hd!("h.drop.dirty", { drop(s); });
     }
